@@ -151,6 +151,50 @@ static void restore_v_matrices(vnacal_new_solve_state_t *vnssp,
     }
 }
 
+#ifdef LIBVNA_VERIF
+/*
+ * _vnacal_verif_lm_hook: optional observer of the iteration below
+ */
+void (*_vnacal_verif_lm_hook)(const vnacal_verif_lm_event_t *event) = NULL;
+
+/*
+ * verif_lm_report: report the end of an iteration or the exit to the hook
+ */
+static void verif_lm_report(const vnacal_new_solve_state_t *vnssp,
+	int is_exit, int iteration, bool better, bool converged, int outcome,
+	double multiplier, double sum_k_squared, double best_sum_k_squared,
+	int p_length, int x_length, const double complex *best_p_vector,
+	const double complex *d_vector, const double complex *x_vector)
+{
+    if (_vnacal_verif_lm_hook != NULL) {
+	vnacal_verif_lm_event_t event;
+	double complex p_vector[p_length > 0 ? p_length : 1];
+
+	for (int i = 0; i < p_length; ++i) {
+	    p_vector[i] = vnssp->vnss_p_vector[i][vnssp->vnss_findex];
+	}
+	(void)memset((void *)&event, 0, sizeof(event));
+	event.vle_exit               = is_exit;
+	event.vle_findex             = vnssp->vnss_findex;
+	event.vle_iteration          = iteration;
+	event.vle_iteration_limit    = vnssp->vnss_vnp->vn_iteration_limit;
+	event.vle_better             = better;
+	event.vle_converged          = converged;
+	event.vle_outcome            = outcome;
+	event.vle_multiplier         = multiplier;
+	event.vle_sum_k_squared      = sum_k_squared;
+	event.vle_best_sum_k_squared = best_sum_k_squared;
+	event.vle_p_length           = p_length;
+	event.vle_x_length           = x_length;
+	event.vle_p_vector           = p_vector;
+	event.vle_best_p_vector      = best_p_vector;
+	event.vle_d_vector           = d_vector;
+	event.vle_x_vector           = x_vector;
+	(*_vnacal_verif_lm_hook)(&event);
+    }
+}
+#endif /* LIBVNA_VERIF */
+
 /*
  * _vnacal_new_solve_auto: solve for both error terms and unknown s-parameters
  *   @vnssp: pointer to state structure
@@ -231,6 +275,12 @@ int _vnacal_new_solve_auto(vnacal_new_solve_state_t *vnssp,
 
     /* return status of this function */
     int rv = -1;
+
+#ifdef LIBVNA_VERIF
+    /* iterations completed and reason for leaving, for the hook */
+    int verif_iterations = 0;
+    int verif_outcome = VNACAL_VERIF_LM_ERROR;
+#endif /* LIBVNA_VERIF */
 
     /*
      * Test that we have at least as many equations as unknowns.
@@ -443,6 +493,9 @@ int _vnacal_new_solve_auto(vnacal_new_solve_state_t *vnssp,
 	if (rank < x_length) {
 	    _vnacal_error(vcp, VNAERR_MATH, "vnacal_new_solve: "
 		    "singular linear system");
+#ifdef LIBVNA_VERIF
+	    verif_outcome = VNACAL_VERIF_LM_SINGULAR;
+#endif /* LIBVNA_VERIF */
 	    goto out;
 	}
 #if DEBUG >= 3
@@ -468,6 +521,9 @@ int _vnacal_new_solve_auto(vnacal_new_solve_state_t *vnssp,
 	}
 	if (vs_update_all_v_matrices("vnacal_new_solve",
 		    vnssp, x_vector, x_length) == -1) {
+#ifdef LIBVNA_VERIF
+	    verif_outcome = VNACAL_VERIF_LM_SINGULAR;
+#endif /* LIBVNA_VERIF */
 	    goto out;
 	}
 #ifdef DEBUG
@@ -964,6 +1020,9 @@ int _vnacal_new_solve_auto(vnacal_new_solve_state_t *vnssp,
 	    if (determinant == 0.0 || !isnormal(cabs(determinant))) {
 		_vnacal_error(vcp, VNAERR_MATH, "vnacal_new_solve: "
 			"singular linear system");
+#ifdef LIBVNA_VERIF
+		verif_outcome = VNACAL_VERIF_LM_SINGULAR;
+#endif /* LIBVNA_VERIF */
 		goto out;
 	    }
 	}
@@ -1028,10 +1087,25 @@ int _vnacal_new_solve_auto(vnacal_new_solve_state_t *vnssp,
 #ifdef DEBUG
 		(void)printf("# stop: converged (iteration %d)\n", iteration);
 #endif /* DEBUG */
+#ifdef LIBVNA_VERIF
+		verif_iterations = iteration + 1;
+		verif_outcome = VNACAL_VERIF_LM_OK;
+		verif_lm_report(vnssp, 0, iteration, best, true, 0,
+			marquardt_multiplier, sum_k_squared,
+			best_sum_k_squared, p_length, x_length,
+			best_p_vector, d_vector, x_vector);
+#endif /* LIBVNA_VERIF */
 		up_to_date = true;
 		break;
 	    }
 	}
+
+#ifdef LIBVNA_VERIF
+	verif_iterations = iteration + 1;
+	verif_lm_report(vnssp, 0, iteration, best, false, 0,
+		marquardt_multiplier, sum_k_squared, best_sum_k_squared,
+		p_length, x_length, best_p_vector, d_vector, x_vector);
+#endif /* LIBVNA_VERIF */
 
 	/*
 	 * Limit the number of iterations.
@@ -1039,6 +1113,9 @@ int _vnacal_new_solve_auto(vnacal_new_solve_state_t *vnssp,
 	if (iteration >= vnp->vn_iteration_limit) {
 	    _vnacal_error(vcp, VNAERR_MATH, "vnacal_new_solve: "
 		    "system failed to converge at %e Hz", frequency);
+#ifdef LIBVNA_VERIF
+	    verif_outcome = VNACAL_VERIF_LM_LIMIT;
+#endif /* LIBVNA_VERIF */
 	    goto out;
 	}
     }
@@ -1060,6 +1137,12 @@ success:
     /*FALLTHROUGH*/
 
 out:
+#ifdef LIBVNA_VERIF
+    verif_lm_report(vnssp, 1, verif_iterations, false, rv == 0,
+	    rv == 0 ? VNACAL_VERIF_LM_OK : verif_outcome,
+	    marquardt_multiplier, 0.0, best_sum_k_squared, p_length, x_length,
+	    best_p_vector, NULL, x_vector);
+#endif /* LIBVNA_VERIF */
     free((void *)prev_v_matrices);
     free((void *)w_vector);
     free((void *)best_k_vector);
